@@ -458,6 +458,44 @@ fn run_scenario(seed: u64) -> Result<ScenarioOut, String> {
                 }
             }
         }
+        // timer script coverage: what happened to armed timers (per actor)
+        for lg in &logs {
+            let mut armed: std::collections::BTreeSet<String> = Default::default();
+            for e in lg {
+                let toks = srh::graph_small::tokenize(e);
+                let mut pos = 0;
+                if let Some(srh::graph_small::Sx::List(items)) = srh::graph_small::parse_val(&toks, &mut pos) {
+                    let kind = items[0].atom().unwrap_or("").to_string();
+                    if kind == "timeout" {
+                        let k = items[3].atom().unwrap_or("").to_string();
+                        armed.remove(&k);
+                        *cnt.entry("timer-fired".into()).or_insert(0) += 1;
+                    }
+                    if let Some(srh::graph_small::Sx::List(cmds)) = items.last() {
+                        for c in cmds {
+                            if let Some(c) = c.list() {
+                                match (c[0].atom(), c.get(1).and_then(|x| x.atom())) {
+                                    (Some("set"), Some(k)) => {
+                                        let key = if armed.insert(k.to_string()) { "timer-set-fresh" } else { "timer-rearmed-while-armed" };
+                                        *cnt.entry(key.into()).or_insert(0) += 1;
+                                        let lo: u64 = c[2].atom().and_then(|x| x.parse().ok()).unwrap_or(0);
+                                        let hi: u64 = c[3].atom().and_then(|x| x.parse().ok()).unwrap_or(0);
+                                        let rk = if lo < hi { "timer-range-proper" } else if lo == hi { "timer-range-empty" } else { "timer-range-reversed" };
+                                        *cnt.entry(rk.into()).or_insert(0) += 1;
+                                    }
+                                    (Some("cancel"), Some(k)) => {
+                                        let key = if armed.remove(k) { "timer-cancel-armed" } else { "timer-cancel-not-armed" };
+                                        *cnt.entry(key.into()).or_insert(0) += 1;
+                                    }
+                                    _ => {}
+                                }
+                            }
+                        }
+                    }
+                }
+            }
+            *cnt.entry("timer-armed-at-end-of-observation".into()).or_insert(0) += armed.len() as u64;
+        }
         for (k, v) in cnt {
             stats.push((k, v));
         }
